@@ -50,7 +50,9 @@ const (
 	c14Ms        = int64(time.Millisecond)
 	// epsEarly: the assumed bound on how late the clock goroutine may wake (the model's eps) when an
 	// early timeout is judged for a deadline computed from a running clock's possibly stale time.
-	c14EpsEarly = 3 * c14Ms
+	// (On a loaded machine wake-ups 5-6 ms late were observed; a deadline made from a clock that was
+	// seen stopped involves no eps at all.)
+	c14EpsEarly = 10 * c14Ms
 )
 
 var (
@@ -62,6 +64,7 @@ var (
 	c14CalibOnce sync.Once
 	c14CatNatural time.Duration
 	c14Failed     int
+	c14Hung       bool
 )
 
 func c14Now() int64 { return int64(time.Since(c14Base)) }
@@ -106,6 +109,27 @@ func c14ClockAlive() bool {
 	return strings.Contains(string(buf[:n]), "regexp2/v2.runClock")
 }
 
+// c14StopClock calls StopTimeoutClock; false when it has not returned after 5 s (it waits for the clock
+// goroutine to leave its loop, which takes one period).  After that the process-wide clock is unusable
+// for further histories.
+func c14StopClock() bool {
+	if c14Hung {
+		return false
+	}
+	done := make(chan struct{})
+	go func() {
+		regexp2.StopTimeoutClock()
+		close(done)
+	}()
+	select {
+	case <-done:
+		return true
+	case <-time.After(5 * time.Second):
+		c14Hung = true
+		return false
+	}
+}
+
 // observations ---------------------------------------------------------------------------------
 
 type c14Match struct {
@@ -144,6 +168,7 @@ type c14Run struct {
 	Stops   []c14Stop
 	// Go-side estimate (upper bound) of the time the clock is planned to leave its loop
 	EndEst []int64 // per probe
+	Hung   string  // StopTimeoutClock never returned
 }
 
 type c14Api struct {
@@ -180,7 +205,10 @@ func c14RunMatch(kind string, d int64) (timedOut bool, other string, t0, t1 int6
 func c14Execute(cs c14Case, lateAllow int64) *c14Run {
 	c14Calibrate()
 	r := &c14Run{}
-	regexp2.StopTimeoutClock()
+	if !c14StopClock() {
+		r.Hung = "StopTimeoutClock called before the history (clock left by the previous history) did not return within 5s"
+		return r
+	}
 	regexp2.SetTimeoutCheckPeriod(time.Duration(cs.PeriodNs))
 	st := int64(0)
 	if c14Started {
@@ -250,11 +278,14 @@ func c14Execute(cs c14Case, lateAllow int64) *c14Run {
 			}
 		case "stop":
 			s := c14Stop{Ev: i, T: c14Now()}
-			regexp2.StopTimeoutClock()
+			if !c14StopClock() {
+				r.Hung = fmt.Sprintf("event %d: StopTimeoutClock did not return within 5s", i)
+				return r
+			}
 			s.TRet = c14Now()
 			// the goroutine clears `running` a few instructions before it is gone from the dump
 			alive := true
-			for k := 0; k < 10 && alive; k++ {
+			for k := 0; k < 50 && alive; k++ {
 				if alive = c14ClockAlive(); alive {
 					time.Sleep(2 * time.Millisecond)
 				}
@@ -276,18 +307,40 @@ func c14Execute(cs c14Case, lateAllow int64) *c14Run {
 					if m.Delay > 0 {
 						time.Sleep(time.Duration(m.Delay))
 					}
+					if m.Kind == "stop" {
+						// StopTimeoutClock while other matches are in flight (never generated; replays only)
+						res[k].TBefore = c14Now()
+						if !c14StopClock() {
+							res[k].OtherErr = "hung"
+						}
+						res[k].TAfter = c14Now()
+						return
+					}
 					to, other, t0, t1 := c14RunMatch(m.Kind, m.D)
 					res[k].TimedOut, res[k].OtherErr, res[k].TBefore, res[k].TAfter = to, other, t0, t1
 				}(k, m)
 			}
 			wg.Wait()
 			for k := range res {
+				if res[k].Kind == "stop" {
+					if res[k].OtherErr != "" {
+						r.Hung = fmt.Sprintf("event %d: StopTimeoutClock did not return within 5s", i)
+						return r
+					}
+					r.Stops = append(r.Stops, c14Stop{Ev: i, T: res[k].TBefore, TRet: res[k].TAfter})
+					r.Api = append(r.Api, c14Api{res[k].TBefore, fmt.Sprintf("(stop %d %d)", res[k].TBefore, res[k].TAfter)})
+					endEst = 0
+					continue
+				}
 				if res[k].D != math.MaxInt64 {
 					seenAbsent = false
 				}
 				armed(res[k].TBefore, res[k].D)
 			}
 			for k := range res {
+				if res[k].Kind == "stop" {
+					continue
+				}
 				res[k].FreshSeen = false // concurrent starts: never treated as certainly fresh
 				r.Matches = append(r.Matches, res[k])
 				r.Api = append(r.Api, c14Api{res[k].TBefore, fmt.Sprintf("(make %d %d %d)", res[k].ID, res[k].TBefore, res[k].D)},
@@ -392,9 +445,13 @@ func c14Judge(cs c14Case, r *c14Run, m *c14Model, lateAllow int64) (fs []c14Find
 				add("impl-violation", "timeout-with-default", desc+" reported a timeout although MaxInt64 disables checking", "no timeout", fmt.Sprintf("timeout after %dns", el))
 				continue
 			}
-			if el < x.D-2*c14Tick-c14EpsEarly {
+			eps := c14EpsEarly
+			if x.FreshSeen {
+				eps = 0
+			}
+			if el < x.D-2*c14Tick-eps {
 				add("impl-violation", "early-timeout:"+x.Kind+":"+c14DClass(x.D, per), desc+fmt.Sprintf(" reported a timeout after only %dns", el),
-					fmt.Sprintf("no timeout before d - 2 ticks - eps = %dns", x.D-2*c14Tick-c14EpsEarly), fmt.Sprintf("timeout after %dns", el))
+					fmt.Sprintf("no timeout before d - 2 ticks - eps = %dns (eps = %dns)", x.D-2*c14Tick-eps, eps), fmt.Sprintf("timeout after %dns", el))
 				continue
 			}
 			if x.Kind != "cat" {
@@ -448,7 +505,7 @@ func c14Judge(cs c14Case, r *c14Run, m *c14Model, lateAllow int64) (fs []c14Find
 	for _, s := range r.Stops {
 		buckets = append(buckets, "stop")
 		if s.AliveRet {
-			add("impl-violation", "alive-after-stop", fmt.Sprintf("event %d: runClock goroutine still present 20ms after StopTimeoutClock returned", s.Ev), "goroutine gone", "present")
+			add("impl-violation", "alive-after-stop", fmt.Sprintf("event %d: runClock goroutine still present 100ms after StopTimeoutClock returned", s.Ev), "goroutine gone", "present")
 		}
 		if s.TRet-s.T > 3*per+lateAllow {
 			add("impl-violation", "stop-slow", fmt.Sprintf("event %d: StopTimeoutClock took %dns (period %dns)", s.Ev, s.TRet-s.T, per), fmt.Sprintf("<= 3 periods + %dns", lateAllow), fmt.Sprintf("%dns", s.TRet-s.T))
@@ -530,6 +587,9 @@ func c14LateAllow(c *core.Ctx) int64 {
 func c14Once(c *core.Ctx, cs c14Case) ([]c14Finding, []string, error) {
 	la := c14LateAllow(c)
 	r := c14Execute(cs, la)
+	if r.Hung != "" {
+		return []c14Finding{{"impl-violation", "stop-hang", r.Hung + " (the clock goroutine does not leave its loop)", "returns after about one period", "still blocked after 5s"}}, nil, nil
+	}
 	ans, err := c.RunDriver([]string{c14DriverLine(cs, r)})
 	if err != nil {
 		return nil, nil, err
@@ -545,14 +605,15 @@ func c14Once(c *core.Ctx, cs c14Case) ([]c14Finding, []string, error) {
 func c14Check(c *core.Ctx, cases []c14Case) []core.Outcome {
 	outs := make([]core.Outcome, len(cases))
 	defer func() {
-		regexp2.StopTimeoutClock()
-		regexp2.SetTimeoutCheckPeriod(regexp2.DefaultClockPeriod)
+		if c14StopClock() {
+			regexp2.SetTimeoutCheckPeriod(regexp2.DefaultClockPeriod)
+		}
 	}()
 	for i, cs := range cases {
 		o := &outs[i]
 		o.Key = string(core.RawJSON(cs))
 		o.Nontrivial = len(cs.Events) > 1
-		if c14Failed >= 3 {
+		if c14Failed >= 3 || c14Hung {
 			// a broken clock makes every history slow (catastrophic matches run to their end): stop early
 			o.Buckets = []string{"skipped-after-3-failing-histories"}
 			continue
@@ -565,6 +626,12 @@ func c14Check(c *core.Ctx, cases []c14Case) []core.Outcome {
 		}
 		o.Buckets = append(buckets, fmt.Sprintf("period:%dms", cs.PeriodNs/c14Ms))
 		if len(fs) == 0 {
+			continue
+		}
+		if c14Hung {
+			// nothing can be re-run: the clock cannot be stopped any more
+			c14Failed++
+			o.Fail = &core.Failure{Kind: fs[0].Kind, Key: fs[0].Key, Summary: fs[0].Summary, Expected: fs[0].Expected, Got: fs[0].Got}
 			continue
 		}
 		// Timing observations are confirmed before they are reported: the history is run twice more and
@@ -588,6 +655,9 @@ func c14Check(c *core.Ctx, cases []c14Case) []core.Outcome {
 			for key := range confirmed {
 				if !seen[key] {
 					o.Buckets = append(o.Buckets, "unconfirmed:"+key)
+					if len(c.Result.Notes) < 12 {
+						c.Result.Notes = append(c.Result.Notes, fmt.Sprintf("C14 history %d: finding not confirmed by re-running the history (scheduling noise, not counted): %s: %s (expected %s, got %s)", i, key, confirmed[key].Summary, confirmed[key].Expected, confirmed[key].Got))
+					}
 					delete(confirmed, key)
 				}
 			}
@@ -723,7 +793,7 @@ func init() {
 	core.Register("C14", func(c *core.Ctx) {
 		core.RunLeg(c, core.Leg[c14Case]{
 			Name: "H", Kind: "oracle+correspondence",
-			Rule: "histories of 6-12 events on the real process-wide clock with SetTimeoutCheckPeriod(1ms) (every 4th: 4 or 16 c14Ms): catastrophic (a+)+$ matches with MatchTimeout 20-81ms, matches of a few c14Ms and instant matches with timeouts from 20ms to MaxInt64 (incl. MaxInt64-1, MaxInt64-period, MaxInt64-period+1), idle gaps 0-120ms, one gap beyond deadline+1s+period per history, StopTimeoutClock, 2-4 concurrent matches with different deadlines; a stack dump after every event. Oracle: a catastrophic match returns a timeout error, no timeout is reported before d - 2 ticks - 3ms, none later than d + 2 periods + 1 tick + allowance (150ms quick / 250ms thorough), the goroutine is gone after StopTimeoutClock and once every deadline + 1s + 2 periods (+allowance) has passed. Correspondence: the same history with measured timestamps run on the Lean model (ideal ticks): no timeout before the model's deadline can be reached (sharp when the clock was seen stopped before the call), goroutine present while the model's clock runs, gone after it left its loop. A finding counts only if its class recurs in 3 of 3 runs of the history. non-trivial = more than one event; distinct by history",
+			Rule: "histories of 6-12 events on the real process-wide clock with SetTimeoutCheckPeriod(1ms) (every 4th: 4 or 16 c14Ms): catastrophic (a+)+$ matches with MatchTimeout 20-81ms, matches of a few c14Ms and instant matches with timeouts from 20ms to MaxInt64 (incl. MaxInt64-1, MaxInt64-period, MaxInt64-period+1), idle gaps 0-120ms, one gap beyond deadline+1s+period per history, StopTimeoutClock, 2-4 concurrent matches with different deadlines; a stack dump after every event. Oracle: a catastrophic match returns a timeout error, no timeout is reported before d - 2 ticks - eps (eps = 10ms for a deadline made while the clock was running, 0 when it was seen stopped), none later than d + 2 periods + 1 tick + allowance (150ms quick / 250ms thorough), the goroutine is gone after StopTimeoutClock and once every deadline + 1s + 2 periods (+allowance) has passed. Correspondence: the same history with measured timestamps run on the Lean model (ideal ticks): no timeout before the model's deadline can be reached (sharp when the clock was seen stopped before the call), goroutine present while the model's clock runs, gone after it left its loop. A finding counts only if its class recurs in 3 of 3 runs of the history. non-trivial = more than one event; distinct by history",
 			Corpus: c14Corpus(), N: c.N(5, 110), Gen: c14Gen, Check: c14Check,
 		})
 	})
